@@ -4,7 +4,7 @@ from sympy import Integer, Expr
 from Solverz.sym_algebra.symbols import iVar, IdxVar, Para
 from Solverz.equation.jac import Jac, JacBlock
 from Solverz.utilities.address import Address
-from Solverz.utilities.type_checker import is_zero
+from Solverz.utilities.type_checker import is_zero, is_integer
 
 SolVar = Union[iVar, IdxVar]
 
@@ -75,8 +75,8 @@ class Hvp:
 
 
 def parse_den_var_addr(den_var_addr: slice | int):
-    if isinstance(den_var_addr, int):
-        den_var_addr = slice(den_var_addr, den_var_addr + 1)
+    if is_integer(den_var_addr):
+        den_var_addr = slice(int(den_var_addr), int(den_var_addr) + 1)
     if den_var_addr.stop - den_var_addr.start == 1:
         return den_var_addr.start
     else:
